@@ -6,7 +6,7 @@ by zero raises ZeroDivisionError), 'np' = a NumPy scalar/array or pandas object
 """
 import ast
 
-from mmsa import au
+from mmsa import au, canon
 from mmsa.core import norm, walk_no_nested
 from mmsa.types import FuncCtx
 
@@ -72,6 +72,13 @@ class Kinds:
       if norm(e) in ('np.nan', 'np.inf', 'np.pi', 'np.e', 'math.pi', 'math.inf', 'math.nan', 'math.e', 'numpy.nan', 'numpy.inf'):
         return 'py'     # plain Python floats
       base = self.T.type_of(f, e.value, at)
+      if base is None:
+        # field of a namedtuple value whose construction site is visible: pretestfit.sigma
+        el = self.tuple_elems(f, e.value, at, depth - 1)
+        flds = self._nt_fields(f, e.value, at, depth - 1)
+        if el is not None and flds is not None and e.attr in flds and flds.index(e.attr) < len(el):
+          g_, x_ = el[flds.index(e.attr)]
+          return self.kind(g_, x_, None, depth - 1)
       if base is not None:
         if base.qualname == 'tbrmmdesignparameters.TBRMMDesignParameters':
           return 'py'    # validated isinstance(value, int/float) (C17.R2)
@@ -128,8 +135,10 @@ class Kinds:
     if isinstance(e, ast.Call):
       d = norm(e.func)
       v = f.module.assigns.get(d)
-      if v is not None and isinstance(v, ast.Call) and norm(v.func).endswith('namedtuple') and not e.keywords:
-        return [(f, x) for x in e.args]
+      if v is not None and isinstance(v, ast.Call) and norm(v.func).endswith('namedtuple'):
+        e2 = canon.of(self.repo).expr(e)      # keyword construction -> positional, in field order
+        if not e2.keywords:
+          return [(f, x) for x in e.args] if not e.keywords else [(f, _orig_arg(e, x)) for x in e2.args]
       t = self.T.callee(f, e, at)
       if t and t[0] == 'func':
         return self._ret_elems(t[1], depth - 1)
@@ -148,6 +157,54 @@ class Kinds:
       if d is not None and d.how == 'assign' and d.value is not None:
         return self.tuple_elems(f, d.value, d.node, depth - 1)
     return None
+
+  def _nt_fields(self, f, e, at, depth):
+    """Field names of the namedtuple type whose constructor call produces `e` (all visible sites agreeing)."""
+    if depth <= 0 or e is None:
+      return None
+    if isinstance(e, ast.Call):
+      name = norm(e.func).split('.')[-1]
+      v = f.module.assigns.get(name)
+      if v is not None and isinstance(v, ast.Call) and norm(v.func).endswith('namedtuple'):
+        return canon.of(self.repo).sigs.get(name)
+      t = self.T.callee(f, e, at)
+      if t and t[0] == 'func':
+        return self._nt_fields_of_returns(t[1], depth - 1)
+      return None
+    if isinstance(e, ast.Attribute):
+      base = self.T.type_of(f, e.value, at)
+      if base is not None and e.attr in base.getters:
+        return self._nt_fields_of_returns(base.getters[e.attr], depth - 1)
+      if base is not None:
+        out = set()
+        for g in base.all_functions():
+          sn = g.params[0] if g.params else None
+          for s in walk_no_nested(g.node):
+            if isinstance(s, ast.Assign) and not au.is_const(s.value, None):
+              for t in s.targets:
+                if isinstance(t, ast.Attribute) and isinstance(t.value, ast.Name) and t.value.id == sn and t.attr == e.attr:
+                  r = self._nt_fields(g, s.value, FuncCtx.of(g).node_at(s), depth - 1)
+                  out.add(tuple(r) if r else None)
+        return list(next(iter(out))) if len(out) == 1 and None not in out else None
+      return None
+    if isinstance(e, ast.Name) and at is not None:
+      d = FuncCtx.of(f).rd.single_def(at, e.id)
+      if d is not None and d.how == 'assign' and d.value is not None:
+        return self._nt_fields(f, d.value, d.node, depth - 1)
+    return None
+
+  def _nt_fields_of_returns(self, g, depth):
+    key = ('ntf', g.qualname)
+    if key in self._busy:
+      return None
+    self._busy.add(key)
+    out = set()
+    for s in walk_no_nested(g.node):
+      if isinstance(s, ast.Return) and s.value is not None and not au.is_const(s.value, None):
+        r = self._nt_fields(g, s.value, FuncCtx.of(g).node_at(s), depth - 1)
+        out.add(tuple(r) if r else None)
+    self._busy.discard(key)
+    return list(next(iter(out))) if len(out) == 1 and None not in out else None
 
   def _ret_elems(self, g, depth):
     key = ('relems', g.qualname)
@@ -275,3 +332,12 @@ class Kinds:
     r = ks.pop() if len(ks) == 1 else None
     self._ret[key] = r
     return r
+
+
+def _orig_arg(call, x):
+  """The node of the original call `call` that the canonicalised argument x was cloned from (same source position)."""
+  for a in list(call.args) + [k.value for k in call.keywords]:
+    if norm(a) == norm(x) and getattr(a, 'lineno', None) == getattr(x, 'lineno', None) \
+        and getattr(a, 'col_offset', None) == getattr(x, 'col_offset', None):
+      return a
+  return x
